@@ -34,33 +34,33 @@ Proof. exact lowering_correct_source_lemma. Qed.
 Definition ex_l : block :=
   BCons (SWhile (CUser 1) (BCons (STry
      (BCons (SIf (CUser 2) (BCons SBreak BNil) BNil) (BCons (SIf (CUser 3) (BCons SContinue BNil) BNil)
-        (BCons (SIf (CUser 4) (BCons (SReturn 5) BNil) BNil) (BCons (SAtom 6) BNil)))) HNil
-     (BCons (SAtom 7) BNil) (BCons (SAtom 8) BNil)) BNil) BNil) (BCons (SAtom 9) BNil).
+        (BCons (SIf (CUser 4) (BCons (SReturn 10) BNil) BNil) (BCons (SAtom 12) BNil)))) HNil
+     (BCons (SAtom 14) BNil) (BCons (SAtom 16) BNil)) BNil) BNil) (BCons (SAtom 18) BNil).
 Example ex_l_hyps : lowering_hyps ex_l = true.
 Proof. vm_compute; reflexivity. Qed.
 Example ex_l_runs :
-  exec_block 80 ex_l (fun _ => false) [1; 0; 1; 1; 0; 0; 0; 1; 0; 0; 1] = ([1; 2; 3; 8; 1; 2; 3; 4; 6; 7; 8; 1; 2; 3; 4; 5; 8], ORet, (fun _ => false), [])
+  exec_block 80 ex_l (fun _ => false) [1; 0; 1; 1; 0; 0; 0; 1; 0; 0; 1] = ([1; 2; 3; 16; 1; 2; 3; 4; 12; 14; 16; 1; 2; 3; 4; 10; 16], ORet, (fun _ => false), [])
   /\ (let '(tr, o, s, d) := exec_block 200 (lowered ex_l) (fun _ => false) [1; 0; 1; 1; 0; 0; 0; 1; 0; 0; 1] in (tr, o, s rflag, d))
-     = ([1; 2; 3; 8; 1; 2; 3; 4; 6; 7; 8; 1; 2; 3; 4; 5; 8], ONormal, true, []).
+     = ([1; 2; 3; 16; 1; 2; 3; 4; 12; 14; 16; 1; 2; 3; 4; 10; 16], ONormal, true, []).
 Proof. vm_compute; split; reflexivity. Qed.
 (* non-vacuity with exceptions: while t1: try: (if t2: break); raise r3  except: (if t4: continue); (if t5: return r6); a7
                                         finally: a8 ;  a9 *)
 Definition ex_le : block :=
   BCons (SWhile (CUser 1) (BCons (STry
      (BCons (SIf (CUser 2) (BCons SBreak BNil) BNil) (BCons (SRaise 3) BNil))
-     (HCons (BCons (SIf (CUser 4) (BCons SContinue BNil) BNil) (BCons (SIf (CUser 5) (BCons (SReturn 6) BNil) BNil) (BCons (SAtom 7) BNil))) HNil)
-     BNil (BCons (SAtom 8) BNil)) BNil) BNil) (BCons (SAtom 9) BNil).
+     (HCons false (BCons (SIf (CUser 4) (BCons SContinue BNil) BNil) (BCons (SIf (CUser 5) (BCons (SReturn 12) BNil) BNil) (BCons (SAtom 14) BNil))) HNil)
+     BNil (BCons (SAtom 16) BNil)) BNil) BNil) (BCons (SAtom 18) BNil).
 Example ex_le_hyps : lowering_hyps ex_le = true.
 Proof. vm_compute; reflexivity. Qed.
 Example ex_le_runs :
-  exec_block 80 ex_le (fun _ => false) [1; 0; 0; 1; 1; 0; 0; 0; 0; 1; 0; 0; 0; 1] = ([1; 2; 3; 4; 8; 1; 2; 3; 4; 5; 7; 8; 1; 2; 3; 4; 5; 6; 8], ORet, (fun _ => false), [])
+  exec_block 80 ex_le (fun _ => false) [1; 0; 0; 1; 1; 0; 0; 0; 0; 1; 0; 0; 0; 1] = ([1; 2; 3; 4; 16; 1; 2; 3; 4; 5; 14; 16; 1; 2; 3; 4; 5; 12; 16], ORet, (fun _ => false), [])
   /\ (let '(tr, o, s, d) := exec_block 200 (lowered ex_le) (fun _ => false) [1; 0; 0; 1; 1; 0; 0; 0; 0; 1; 0; 0; 0; 1] in (tr, o, s rflag, d))
-     = ([1; 2; 3; 4; 8; 1; 2; 3; 4; 5; 7; 8; 1; 2; 3; 4; 5; 6; 8], ONormal, true, []).
+     = ([1; 2; 3; 4; 16; 1; 2; 3; 4; 5; 14; 16; 1; 2; 3; 4; 5; 12; 16], ONormal, true, []).
 Proof. vm_compute; split; reflexivity. Qed.
 (* the exception is taken by no handler (decision 1): it leaves the loop and the function, after the finally clause *)
 Example ex_le_uncaught :
-  exec_block 80 ex_le (fun _ => false) [1; 0; 1] = ([1; 2; 3; 8], ORaise, (fun _ => false), [])
-  /\ (let '(tr, o, s, d) := exec_block 200 (lowered ex_le) (fun _ => false) [1; 0; 1] in (tr, o, s rflag, d)) = ([1; 2; 3; 8], ORaise, false, []).
+  exec_block 80 ex_le (fun _ => false) [1; 0; 1] = ([1; 2; 3; 16], ORaise, (fun _ => false), [])
+  /\ (let '(tr, o, s, d) := exec_block 200 (lowered ex_le) (fun _ => false) [1; 0; 1] in (tr, o, s rflag, d)) = ([1; 2; 3; 16], ORaise, false, []).
 Proof. vm_compute; split; reflexivity. Qed.
 Example ex_l_src : src_block ex_l = true /\ src_block ex_le = true.
 Proof. vm_compute; split; reflexivity. Qed.
